@@ -10,7 +10,7 @@ class C16(common.SpecCheck):
     pid = "C16"
     title = "Spacetime display is observation-only, complete and unambiguous"
     QUICK = {"nseeds": 8, "specs": 300, "round": 300, "budget": 0}
-    rule = ("class-T specs (class P/S/O Einsum + spacetime: any split of the loop ranks into space and time, .pos/.coord "
+    rule = ("class-T specs (class P/S/O/A Einsum, or a class-K cascade in which some Einsums carry a spacetime and some do not, + spacetime: any split of the loop ranks into space and time, .pos/.coord "
             "styles, optional slip) x hash-seed pool; executed on the reference runtime with a recording canvas stand-in. "
             "Oracle: tensors equal the dense model (= the twin without spacetime); exactly one addActivity per executed "
             "update between createCanvas and displayCanvas; one point per displayed tensor, each with as many coordinates "
